@@ -285,7 +285,15 @@ def run(ctx, config='rel-all'):
         st = [e for e in m.own if e.kind == 'store' and e.lv == ('fld', ('deref', SELF), 'collections::vec::Vec.len')]
         rd = m.events('call', 'ptr::read')
         alts = arena.alternatives(m.I, m.r.ret, set())
-        none_ok = any(t[0] == 'agg' and t[2] == 'None' and any(f[0] == 'eq' and C(0) in f[1:] for f in fs) for t, fs in alts)
+        LENL = ('load', ('fld', ('deref', SELF), 'collections::vec::Vec.len'), 0)
+
+        def len_is_zero(fs):
+            # len == 0, or (naturals) len < 1, e.g. from `self.len.checked_sub(1)?`
+            return any((f[0] == 'eq' and C(0) in f[1:]) or (f[0] == 'lt' and len(f) == 3 and f[2] == C(1) and f[1] == LENL) for f in fs)
+        none_ok = any(t[0] == 'agg' and t[2] == 'None' and len_is_zero(fs) for t, fs in alts)
+        if not none_ok:
+            # the None came out of a `?` on len.checked_sub(1): the residual carries the edge facts
+            none_ok = any(len_is_zero(fs) and ('None' in m.I.variants_in(t) or t[0] == 'app') for t, fs in alts if not (t[0] == 'agg' and t[2] == 'Some'))
         check('pop', 'None exactly when len == 0', none_ok)
         check('pop', 'len := len - 1 before the read', len(st) == 1 and len(rd) == 1 and m.eq(st[0].val, app('sub', LEN, C(1)), st[0].state.facts | {('ne', C(0), ('load', ('fld', ('deref', SELF), 'collections::vec::Vec.len'), 0))}) and m.r.events.index(st[0]) < m.r.events.index(rd[0]))
         check('pop', 'reads BASE + (len - 1)', len(rd) == 1 and m.eq(rd[0].args[0], slot(LEN, -1), rd[0].state.facts | {('lt', C(0), LEN)}))
